@@ -110,6 +110,14 @@ func VfC07_ParseGEP() {
 	}
 	inst := m.Funcs[0].Blocks[0].Insts[0].(*ir.InstGetElementPtr)
 	vfAssert("C07.parse.inst.attached", hC06Same(inst.Typ, want))
+	// the result type is a literal type: it does not carry the name of the
+	// (possibly aliased) base type, neither at the top nor in the pointer
+	// inside a vector result
+	unnamed := inst.Typ.Name() == ""
+	if vt, ok := inst.Typ.(*types.VectorType); ok {
+		unnamed = vfAnd(unnamed, vt.ElemType.Name() == "")
+	}
+	vfAssert("C07.parse.inst.result-type-is-unnamed", unnamed)
 	inst.Typ = nil
 	vfAssert("C07.parse.inst.recomputed", hC06Same(inst.Type(), want))
 	zero := m.Funcs[0].Blocks[0].Insts[1].(*ir.InstGetElementPtr)
@@ -123,6 +131,7 @@ func VfC07_ParseGEP() {
 	vfAssert("C07.parse.alias-of-gep.type", vfAnd(len(m.Aliases) == 1, hC06Same(m.Aliases[0].Type(), &types.PointerType{ElemType: types.Float})))
 	expr := m.Globals[3].Init.(*constant.ExprGetElementPtr)
 	vfAssert("C07.parse.expr.attached", hC06Same(expr.Typ, want))
+	vfAssert("C07.parse.expr.result-type-is-unnamed", expr.Typ.Name() == "")
 	expr.Typ = nil
 	vfAssert("C07.parse.expr.recomputed", hC06Same(expr.Type(), want))
 }
